@@ -307,6 +307,38 @@ def run(ctx):
                             used_shapes.add(id(e_))
                             ent = e_
                             break
+        if ent is None and s.kind == "unwrap":
+            # the unwrapped value is a local assigned once per arm (`let r = if a < b { b.duration_since(a) } else { a.duration_since(b) };
+            # r.unwrap()`): the site is discharged when every definition is a reviewed site whose requirements hold where it is made
+            t_ = s.func.body.blocks[s.bb].term
+            sl_ = _slicer_cache.setdefault(s.func.path, Slicer(s.func.body))
+            a0_ = sl_.x.operand(t_.args[0]) if t_.k == "call" and t_.args else None
+            while a0_ is not None and a0_[0] == "ref":
+                a0_ = a0_[-1]
+            if a0_ is not None and a0_[0] == "var" and not a0_[2]:
+                vds_ = value_defs(sl_, a0_[1])
+                if len(vds_) >= 2:
+                    import copy as _copy
+                    ents_, probs_ = [], []
+                    for (e_, bb_) in vds_:
+                        txt_ = "%s(%s)" % (s.text.split("(", 1)[0], show(e_, 140))
+                        en_ = T.lookup(T.SITES, "%s|%s|%s" % (s.func.path, s.kind, txt_), 0, used_shapes)
+                        if en_ is None:
+                            ents_ = None
+                            break
+                        s2_ = _copy.copy(s)
+                        s2_.bb = bb_
+                        ents_.append(en_)
+                        probs_ += check_requires(ctx, prog, en_.get("requires", []), site=s2_)
+                    if ents_:
+                        for en_ in ents_:
+                            used_table.add(en_["_key"])
+                        if probs_:
+                            rule.violation(key, "reviewed site (one per definition of `%s`) whose recorded guard no longer holds: %s" % (a0_[1], "; ".join(probs_)), s.loc)
+                        else:
+                            counts["TABLE"] += 1
+                            rule.ok(key, "reviewed, per definition of `%s`: %s" % (a0_[1], " / ".join(en_["why"] for en_ in ents_)), s.loc, how="TABLE")
+                        continue
         if ent is None and s.func.path in T.FUNCS:
             fe = T.FUNCS[s.func.path]
             kk = (s.func.path, s.kind)
@@ -447,6 +479,7 @@ def run(ctx):
                             "(decision table of the retain predicate over the instance states, shared with C17.R3)", "E3 decision table")
     from . import c17
     c17.fdt_retain_rule(ctx, r6)
+    c17.cache_reset_rule(ctx, r6)     # the pre-OTI packet cache stays bounded: its byte counter is only reset with the cache
     r6.floor(4, "state scenarios")
 
 
